@@ -40,7 +40,7 @@ ASSUMPTIONS = [
 ]
 
 MANIFEST = {
-    "category": "partial",
+    "category": "proof",
     "text": "Coq (Properties_C07_dflt.v, closed under the global context) about Implicit.validate_all / implicit_all - a "
             "branch-by-branch transcription of lyd_validate_all(LYD_VALIDATE_PRESENT) / lyd_new_implicit_all: per sibling list "
             "lyd_validate_choice_r + lyd_validate_cases (old case deleted when a new one appears), the node loop of "
